@@ -1579,3 +1579,16 @@ package trzsz
 //@   before go:TrzszRelay.handshake assert [C06] trigger != nil && trigger == result_of("trzszDetector.detectTrzsz", 0, 1)
 //@   before TrzszRelay.listenForTunnel assert [C06] trigger != nil && r.trigger == trigger
 //@ end
+
+//@ # The connecting side of the tunnel: the connection is handed on for adoption only after our greeting
+//@ # was written and the peer answered exactly the server greeting for this transfer, in one piece;
+//@ # every other outcome hands on nil with the connection closed.
+//@ func trzszTransfer.connectToTunnel$1$1
+//@   before send:connChan#4 assert [C17] p0 == conn && result_of("net.Conn.Write", 0, 1) == nil && \
+//@       result_of("net.Conn.Read", 0, 1) == nil && result_of("net.Conn.Read", 0, 0) == len(serverHello) && \
+//@       (forall j int {buf[j]} :: 0 <= j && j < len(serverHello) ==> buf[j] == serverHello[j])
+//@   before send:connChan#0 assert [C17] p0 == nil
+//@   before send:connChan#1 assert [C17] p0 == nil && closedC[conn]
+//@   before send:connChan#2 assert [C17] p0 == nil && closedC[conn]
+//@   before send:connChan#3 assert [C17] p0 == nil && closedC[conn]
+//@ end
